@@ -109,13 +109,14 @@ class World:
             self.call(sib, 'precompile', out)
         # module-level precompile hooks (regex matchers)
         self.call(obj, 'precompile', out)
-        pre = len(out._root)
+        pre_src = out.source_code()
         self.call(obj, 'compile', out, flags)
         src = out.source_code()
         AS = bool(self.call(obj, 'always_succeeds'))
         CP = bool(self.call(obj, 'can_partially_succeed'))
         b = Built(cfg, obj, src, AS, CP, self.prog, self.it)
         b.out = out
+        b.pre_src = pre_src          # what the module-level precompile hooks emitted
         return b
 
 
